@@ -5,6 +5,7 @@ import gen_hops as H
 import hops_oracles as O
 from props import c14 as C14
 from props import c08 as C08
+from props import c09 as C09
 ID = "C07"
 MANIFEST = {
     "text": ("Kernel-checked theorems about the model of lending_pool_handle_bankruptcy and Bank::socialize_loss, for every world, "
@@ -324,6 +325,9 @@ def suites(rng, tier):
              "distribution": {"cases": n, "note": "same scenario lines; adds the real accrue_interest applied in isolation, "
                                                    "so that the oracle knows the share value the loss was taken from"}},
             C14.killed_suite(rng, {"quick": 150, "thorough": 3000, "search": 1000}[tier]),
+            {"suite": "oraclerisk", "name": "bankruptcy-assessment-with-bad-oracles",
+             "lines": [C09.gen_risk_case(rng, "valid" if rng.random() < 0.5 else "malformed", {}) for _ in range({"quick": 500, "thorough": 8000, "search": 3000}[tier])],
+             "distribution": {"note": "the Equity valuation behind check_account_bankrupt (real RiskEngine) on positions whose oracle is stale, foreign, wrongly owned or too uncertain: the assessment must FAIL, never count the collateral as worth nothing (C09's generator; only the Equity verdicts are judged here)"}},
             {"suite": "auth", "name": "who-may-settle-bad-debt",
              "lines": [l for l in C08.matrix() if C08.kvs(l)["ix"] == "lending_pool_handle_bankruptcy"],
              "distribution": {"note": "the authorization-matrix cells of lending_pool_handle_bankruptcy (every signer role, permissionless flag on / off, every single account substitution) through the real entry point"}}]
@@ -334,6 +338,8 @@ def nontrivial(suite, case, impl):
         return C14.nontrivial(suite, case, impl)
     if suite == "auth":
         return C08.nontrivial(suite, case, impl)
+    if suite == "oraclerisk":
+        return C09.nontrivial(suite, case, impl)
     tr = O.Trace(case, impl)
     return tr.ok and any(op[0] == 18 and res == "OK" for op, res, *_ in O.walk(tr))
 
@@ -375,6 +381,9 @@ def slot_of(acct, b):
 def oracle(suite, case, impl):
     if suite == "auth":
         return C08.oracle(suite, case, impl)
+    if suite == "oraclerisk":
+        v = C09.oracle(suite, case, impl)
+        return v if v and v["what"].startswith("Equity") else None
     if suite == "cfgsim":
         return C14.oracle(suite, case, impl)      # 'permanently shut': no sequence of admin requests revives a killed bank
     tr = O.Trace(case, impl)
